@@ -39,7 +39,9 @@ QuerySeq == <<
   Q("$", <<Child(SName(c_)), Child(SFilter(EAnd(ETest(Q("$", <<Child(SName(r_)), Child(SIndex(1))>>)), ECmp("!=", At1(a_), RootK))))>>),
   \* a per-candidate sub-query whose nested filter is itself candidate-independent: its result still belongs to the candidate
   Q("$", <<Child(SName(c_)), Child(SFilter(ETest(Q("@", <<Child(SFilter(ECmp("==", RootK, CtxV)))>>))))>>),
-  Q("$", <<Child(SName(c_)), Child(SFilter(ECmp("==", OFn("count", <<OQ(Q("@", <<Child(SFilter(ETest(Q("$", <<Child(SName(r_)), Child(SIndex(1))>>))))>>))>>), RootK)))>>) >>
+  Q("$", <<Child(SName(c_)), Child(SFilter(ECmp("==", OFn("count", <<OQ(Q("@", <<Child(SFilter(ETest(Q("$", <<Child(SName(r_)), Child(SIndex(1))>>))))>>))>>), RootK)))>>),
+  \* a bracketed segment with two selectors below a filter: each selector is applied to every parent node in turn
+  Q("$", <<Child(SName(c_)), Child(SFilter(ECmp(">=", At1(a_), RootK))), Seg(FALSE, <<SName(a_), SName(b_)>>)>>) >>
 TheQuery == QuerySeq[QueryIx]
 
 Cands(k) == Arr(<<Obj(<<a_, b_>>, <<IntV(1), IntV(2)>>), Obj(<<a_>>, <<IntV(2)>>), Obj(<<a_, b_>>, <<IntV(k), IntV(1)>>),
